@@ -2416,6 +2416,18 @@ static bool is_const_expr(Node *node) {
   return false;
 }
 
+// An integer constant expression with the value 0, or such an
+// expression cast to void * (C11 6.3.2.3p3)
+bool is_null_pointer_constant(Node *node) {
+  add_type(node);
+  if (node->kind == ND_CAST && node->ty->kind == TY_PTR &&
+      node->ty->base->kind == TY_VOID) {
+    node = node->lhs;
+    add_type(node);
+  }
+  return is_integer(node->ty) && is_const_expr(node) && eval(node) == 0;
+}
+
 int64_t const_expr(Token **rest, Token *tok) {
   Node *node = conditional(rest, tok);
   return eval(node);
